@@ -8,4 +8,8 @@ import Setec.Properties.C06
 import Setec.Properties.C07
 import Setec.Properties.C08
 import Setec.Properties.C09
+import Setec.Properties.C10
+import Setec.Properties.C11
+import Setec.Properties.C13
+import Setec.Properties.C19
 import Setec.Properties.C18
